@@ -17,6 +17,31 @@ VOCAB = ['1', '0', '2.5', "'a'", '"s"', '1/1/2000', 'x', 'y', 'f', 'INTEGER', 'R
          'RETURN', 'OUTPUT', 'INPUT', 'OPENFILE', 'READFILE', 'WRITEFILE', 'CLOSEFILE', 'READ', 'WRITE', 'APPEND', 'RANDOM',
          'SEEK', 'GETRECORD', 'PUTRECORD', '\n', 'LENGTH', 'EOF', 'SETDATE']
 
+# lexical atoms glued together with no separator: token boundaries decided by the lexer alone
+LEX_ATOMS = ['1', '25', '0', '007', '2.5', '3.', '.', '..', '/', '//', '///', '1/1/2000', '12/03', '/2020', '31/12/99999', '"', '"s"', "'", "'a'", "''", "'\\n'",
+             'x', 'X1', '_', 'e', 'E5', '<', '-', '<-', '<=', '>', '=', '==', '<>', '(', ')', '[', ']', ':', ',', '&', '^', '+', '*', ' ', '\t',
+             '#', '\\', 'OUTPUT', 'BREAK', 'TO', 'INTEGER', 'TRUE', 'DIV', 'x5 rows', '9 rows']
+LEX_PREFIX = ['OUTPUT ', 'x <- ', '', 'OUTPUT 1 + ']
+
+def glued(rng, n):
+    out = []
+    for _ in range(n):
+        k = rng.choice([2, 2, 3, 3, 4])
+        body = ''.join(rng.choice(LEX_ATOMS) for _ in range(k))
+        lines = [rng.choice(LEX_PREFIX) + body]
+        if rng.random() < 0.5:
+            lines.append('OUTPUT "next line"')
+        out.append(('\n'.join(lines) + '\n').encode('latin-1'))
+    return out
+
+# the number / date / comment look-ahead of the lexer: every short string over a tiny alphabet
+NUM_ALPHA = ['1', '25', '/', '.', ' ', 'x']
+def numlex(tier, rng):
+    import itertools as it
+    allw = [''.join(w) for k in range(2, 7) for w in it.product(NUM_ALPHA, repeat=k)]
+    words = allw if tier != 'quick' else rng.sample(allw, 700)
+    return [('%s%s\nOUTPUT "next line"\n' % (rng.choice(['OUTPUT ', 'x <- ']), w)).encode() for w in words]
+
 def corpus_programs():
     out = []
     for p in sorted(glob.glob(os.path.join(REPO, 'tests', '*.pseudo')) + glob.glob(os.path.join(REPO, 'examples', '*.pseudo'))):
@@ -110,6 +135,10 @@ def generate(tier, rng):
         seqs = [(a,) for a in VOCAB] + list(itertools.product(VOCAB, VOCAB)) + rng.sample(list(itertools.product(VOCAB, VOCAB, VOCAB)), 60000)
     for s in seqs:
         cases.append(Case((' '.join(s) + '\n').encode(), 'file', '', b'7\n', meta=dict(gen='token-seq-%d' % len(s), sample=False)))
+    for src in glued(rng, 600 if tier == 'quick' else 20000):
+        cases.append(Case(src, 'file', rng.choice(['', '', '-p']), b'7\n', meta=dict(gen='glued-atoms', sample=False)))
+    for src in numlex(tier, rng):
+        cases.append(Case(src, 'file', '', b'7\n', meta=dict(gen='number-lexer', sample=False)))
     for _ in range(150 if tier == 'quick' else 3000):
         src = structured(rng)
         files = {'f.dat': rng.choice(DATAFILES)} if rng.random() < 0.4 else {}
